@@ -288,7 +288,10 @@ def load_cases(outdir):
         for line in f:
             line = line.strip()
             if line:
-                cases.append(json.loads(line))
+                try:
+                    cases.append(json.loads(line))
+                except ValueError:
+                    break   # harness was killed in the middle of a line
     return cases
 
 
